@@ -20,6 +20,10 @@ CHECKS = {
  'C16': dict(engine='L+P', technique='exhaustive enumeration of structured function bodies; explicit-state (block,stack) reference search over the real SSA CFG + Tarjan SCC; exhaustive native execution',
              text='Every function body with <= n statement nodes (n=4 quick: 9426 functions, n=5 thorough: 214209) is SSA-built; defers.AnalyzeFunction must agree with an independent explicit-state reference on boundedness (defer on a CFG cycle) and on the set of stacks at every normal-exit RunDefers, and every natively executed defer order (all valuations) must be a reported stack (equality for loop-free bodies).',
              note='reference shares go/ssa CFG construction with the implementation (trusted); bound on statement nodes / nesting', ref='§6 C16'),
+
+ 'C03': dict(engine='P', technique='bounded-exhaustive program enumeration + exhaustive native execution (origin tokens) vs real backtrace analysis; structural trace validation',
+             text='The C01 program space with additional origin calls; for every token natively found in a backtrace-point argument some reported trace of that argument must contain the originating call (eager and on-demand), and every reported trace must end at the entry argument and be step-connected.',
+             note='origins = calls only (constants/parameters not tracked natively); connectedness check is liberal', ref='§6 C03'),
 }
 NA = []
 def main():
